@@ -194,9 +194,59 @@ package evaluator
 //@ global forall(x, *parser.IndexExpression, wf(parser.Node(x)) ==> (kind(x.Left) == 6 ==> kind(x.Index) == 2) && (kind(x.Left) == 5 || kind(x.Left) == 2 ==> kind(x.Index) == 1))
 //@ global forall(x, *parser.SliceExpression, wf(parser.Node(x)) ==> (x.Start != nil ==> kind(x.Start) == 1) && (x.End != nil ==> kind(x.End) == 1))
 
+// veq(a, b): deep equality of two values (docs/spec.md: == compares arrays element-wise and maps
+// key-wise, ignoring insertion order; any values compare type and payload).
+//@ pure typeEq(t *parser.Type, u *parser.Type) bool
+//@ pure veq(a value, b value) bool = ite(is(a, *numVal), is(b, *numVal) && a.(*numVal).V == b.(*numVal).V, ite(is(a, *stringVal), is(b, *stringVal) && a.(*stringVal).V == b.(*stringVal).V, ite(is(a, *boolVal), is(b, *boolVal) && a.(*boolVal).V == b.(*boolVal).V, ite(is(a, *anyVal), is(b, *anyVal) && typeEq(a.(*anyVal).T, b.(*anyVal).T) && veq(a.(*anyVal).V, b.(*anyVal).V), ite(is(a, *arrayVal), is(b, *arrayVal) && len(*a.(*arrayVal).Elements) == len(*b.(*arrayVal).Elements) && forall(i, int, 0 <= i && i < len(*a.(*arrayVal).Elements) ==> veq((*a.(*arrayVal).Elements)[i], (*b.(*arrayVal).Elements)[i])), ite(is(a, *mapVal), is(b, *mapVal) && len(a.(*mapVal).Pairs) == len(b.(*mapVal).Pairs) && forall(k, string, has(a.(*mapVal).Pairs, k) ==> has(b.(*mapVal).Pairs, k) && veq(a.(*mapVal).Pairs[k], b.(*mapVal).Pairs[k])), false))))))
+
 //@ iface (v value) Equals(o value) (r bool)
 //@   trusted
+//@   requires[assumed-same-kind] valKind(v) == valKind(o) && ref(v) != 0 && ref(o) != 0
+//@   ensures r == veq(v, o)
 //@   modifies nothing
+
+//@ func (n *numVal) Equals(v value) (r bool)
+//@   props C01
+//@   requires is(v, *numVal) && ref(v) != 0
+//@   ensures[C01 num-eq] r == (n.V == v.(*numVal).V)
+//@   ensures[C01 veq] r == veq(value(n), v)
+//@   modifies nothing
+
+//@ func (s *stringVal) Equals(v value) (r bool)
+//@   props C01
+//@   requires is(v, *stringVal) && ref(v) != 0
+//@   ensures[C01 string-eq] r == (s.V == v.(*stringVal).V)
+//@   ensures[C01 veq] r == veq(value(s), v)
+//@   modifies nothing
+
+//@ func (b *boolVal) Equals(v value) (r bool)
+//@   props C01
+//@   requires is(v, *boolVal) && ref(v) != 0
+//@   ensures[C01 bool-eq] r == (b.V == v.(*boolVal).V)
+//@   ensures[C01 veq] r == veq(value(b), v)
+//@   modifies nothing
+
+//@ func (a *anyVal) Equals(v value) (r bool)
+//@   props C01
+//@   requires is(v, *anyVal) && ref(v) != 0 && a.V != nil && v.(*anyVal).V != nil && v.(*anyVal).T != nil
+//@   ensures[C01 any-eq] r == (typeEq(a.T, v.(*anyVal).T) && veq(a.V, v.(*anyVal).V))
+//@   ensures[C01 veq] r == veq(value(a), v)
+//@   modifies nothing
+
+//@ func (a *arrayVal) Equals(v value) (r bool)
+//@   props C01
+//@   requires is(v, *arrayVal) && ref(v) != 0
+//@   ensures[C01 veq] r == veq(value(a), v)
+//@   modifies nothing
+//@   loop 1 invariant -1 <= rangeindex && forall(j, int, 0 <= j && j <= rangeindex ==> veq((*a.Elements)[j], (*v.(*arrayVal).Elements)[j]))
+
+//@ func (m *mapVal) Equals(v value) (r bool)
+//@   props C12 C01
+//@   requires is(v, *mapVal) && ref(v) != 0 && storeOK()
+//@   ensures[C12 C01 veq] r == veq(value(m), v)
+//@   mustfail ensures[C12 canary] r
+//@   modifies nothing
+//@   loop 1 invariant forall(k, string, seen(k) ==> has(v.(*mapVal).Pairs, k) && veq(m.Pairs[k], v.(*mapVal).Pairs[k]))
 
 //@ func canShortCircuit(op parser.Operator, left value) (r bool)
 //@   props C01
